@@ -252,8 +252,14 @@ func (p *c04) Run(rec *core.Recorder, seed uint64, idx int, tier string) {
 	var src, want strings.Builder
 	nontrivial := false
 	long := r.P(1, 8)
+	trimNext := false // the tag before this segment closed with a dash
 	for k := 0; k <= n; k++ {
 		seg := c04Segment(r)
+		if trimNext && k < n && core.Hash64(seg, fmt.Sprint(k), "adjacent")%3 == 0 {
+			// nothing between the dashed delimiter and the next tag: the dash has nothing to remove, and the text after
+			// that next tag is none of its business
+			seg = ""
+		}
 		if long && k == n/2 {
 			seg += strings.Repeat(c04Segment(r)+"pad ", r.Range(300, 900))
 		}
@@ -269,9 +275,21 @@ func (p *c04) Run(rec *core.Recorder, seed uint64, idx int, tier string) {
 			}
 		}
 		src.WriteString(seg)
-		want.WriteString(seg)
+		if trimNext {
+			// (the one exception to "unmodified" that the template itself asks for: blanks right behind a dashed delimiter)
+			want.WriteString(strings.TrimLeft(seg, " \t\r\n"))
+		} else {
+			want.WriteString(seg)
+		}
+		trimNext = false
 		if k < n {
 			t := c04Tags(r, k)
+			if core.Hash64(t.src, fmt.Sprint(k), "right-dash")%6 == 0 && !strings.HasSuffix(t.src, "#}") {
+				// the last delimiter of the tag carries a dash
+				t.src = t.src[:len(t.src)-2] + "-" + t.src[len(t.src)-2:]
+				trimNext = true
+				rec.Count("right-dashed-tags", 1)
+			}
 			src.WriteString(t.src)
 			want.WriteString(t.val)
 		}
